@@ -22,6 +22,12 @@ CHECKS = {
         ref="DESIGN.md section 6 C11",
         note="Assumes a service that answers each call with one entry per request in order (other shapes belong to C09); sends are observed, completion order and status are controlled.",
         technique="TLA+ spec (Impl=>Abs by TLC) + replay of TLC behaviours through a gating HTTP transport + TLC trace validation"),
+    "C01": dict(
+        category="model_checking",
+        text="GQL.tla defines Ref (the GraphQL execution algorithm over the union of the services' data) and Norm (the tolerated pruning); FederationAbs allows a response only if Norm(data)=Norm(Ref) and errors is empty. The REAL gateway (NewGateway: real merger, planner, executor, MultiOpQueryer; six configurations: default, node-hiding merger, id->type hint, cached planner, batch size 1 and 2) is run over fake services that validate and evaluate what they receive, on seeded generated (schemas x entity graph x operation x variables) cases - 15k (quick) / 500k (thorough) operation runs - and TLC recomputes Ref for every recorded case and accepts or refuses the recorded response (FederationTrace). The harness's own evaluator is cross-checked against Ref on every case. Generator features with a recorded defect are exercised in separate strata so that the core stratum has no exemptions.",
+        ref="DESIGN.md section 6 C01",
+        note="Sampled, not exhaustive, over an abstract GraphQL (objects, Node/value types, lists, nulls, aliases, arguments, variables with defaults, @skip/@include, inline and named fragments, interfaces/unions in their own stratum; scalars over a small alphabet). Assumes consistent services and mergeable schema sets; schemas are handed to the gateway by an SDL-loading introspector.",
+        technique="TLA+ reference semantics (Ref/Norm) evaluated by TLC on traces recorded from the real gateway (trace validation), seeded generation in strata"),
 }
 
 PENDING = "not claimed yet: specification and binding for this property are still being built (DESIGN.md section 10 build order)"
